@@ -750,7 +750,31 @@ impl Formatter {
         </div>", block_id, block_class, style_attr, namespace_str, src, output_node)
       }
     } else {
-      format!("```mech{}\n{}\n```", src, format!(":{}", disabled_tag))
+      let tag = if block.config.disabled {
+        ":disabled".to_string()
+      } else if block.config.hidden {
+        ":hidden".to_string()
+      } else if !namespace_str.is_empty() {
+        format!(":{}", namespace_str)
+      } else {
+        "".to_string()
+      };
+      let options_str = match &block.options {
+        Some(option_map) if !option_map.elements.is_empty() => {
+          let inner = option_map
+            .elements
+            .iter()
+            .map(|(k, v)| {
+              let clean_value = v.to_string().trim_matches('"').to_string();
+              format!("{}: \"{}\"", k.to_string(), clean_value)
+            })
+            .collect::<Vec<_>>()
+            .join(", ");
+          format!(" {{{}}}", inner)
+        }
+        _ => "".to_string(),
+      };
+      format!("```mech{}{}\n{}```\n", tag, options_str, src)
     }
   }
 
